@@ -42,4 +42,25 @@ def Chain.fdOr (l : Chain) (dflt : Nat) : Nat := (l.getLast?.map Item.fd).getD d
 /-- the dimension a chain maps to, `dflt` for the empty chain -/
 def Chain.tdOr (l : Chain) (dflt : Nat) : Nat := (l.head?.map Item.td).getD dflt
 
+/-- `Fits l td fd`: `l` is a chain of well-formed items mapping `R^fd → R^td` (the empty chain only for `td = fd`) -/
+inductive Fits : Chain → Nat → Nat → Prop
+  | nil (n : Nat) : Fits [] n n
+  | cons (a : Item) (l : Chain) (fd : Nat) : a.wf = true → Fits l a.fd fd → Fits (a :: l) a.td fd
+
+/-- one swap of `canonical`: an adjacent pair (scale, updim) replaced by what `swapdown` returns -/
+inductive StepDn : Chain → Chain → Prop
+  | mk (p q : Chain) (a b x y : Item) : Item.swapdown a b = some (x, y) → StepDn (p ++ a :: b :: q) (p ++ x :: y :: q)
+
+/-- one swap of `uppermost`: an adjacent pair (updim, scale) replaced by what `swapup` returns -/
+inductive StepUp : Chain → Chain → Prop
+  | mk (p q : Chain) (a b x y : Item) : Item.swapup a b = some (x, y) → StepUp (p ++ a :: b :: q) (p ++ x :: y :: q)
+
+/-- a swap in either direction -/
+def Step (l l' : Chain) : Prop := StepDn l l' ∨ StepUp l l'
+
+/-- reflexive transitive closure -/
+inductive Reach (r : Chain → Chain → Prop) : Chain → Chain → Prop
+  | refl (l : Chain) : Reach r l l
+  | tail (l m n : Chain) : Reach r l m → r m n → Reach r l n
+
 end NutilsVerif.C11
